@@ -41,7 +41,7 @@ CHECKS = {
     text='Machine-checked proofs that the executable query models equal their graph-theoretic definitions on all graphs: descendants/ancestors = '
          'transitive closure, all_paths = exactly the simple directed paths, the memoised nodes_between recursion = {v | a ~>* v ~>* b} on DAGs, '
          'directed_path_exists (fuelled, as written) = reachability on acyclic directed parts, all_topo = exactly the linear extensions, renaming '
-         'invariance. Tied to the code by comparing every query on every labelled DAG up to 4 (quick) / 5 (thorough) nodes and sampled larger ones. The sub-graph builders are proved to return induced sub-graphs / stars, and every query is proved to depend only on the arc set (construction-order invariance).',
+         'invariance. Tied to the code by comparing every query on every labelled DAG up to 4 (quick) / 5 (thorough) nodes and sampled larger ones. The sub-graph builders are proved to return induced sub-graphs / stars, and every query is proved to depend only on the arc set (construction-order invariance). The default get_topological_order() is modelled exactly as networkx computes it (Kahn by generations over to_networkx()) and proved to be a linear extension on every graph state (TopoSortProofs.v).',
     note=TB + 'networkx routines (ancestors, descendants, all_simple_paths, topological sorts) are modelled by specification; the sub-graph builders (_get_subgraph, ancestral / descendant / parents / children graphs) are modelled as written on the concrete graph state and PROVED to be the induced sub-graphs / stars on the right node sets, independent of the set iteration order and of the construction order (SubGraphProofs.v).',
     technique='Coq proofs of query = definition; exhaustive small-scope correspondence', design='§7 C10'),
  'C11': dict(
@@ -64,7 +64,7 @@ CHECKS = {
     text='Machine-checked proof that TimeOK (no stored edge points backwards in time; non-directed edges stored earlier->later) is part of the '
          'invariant of EVERY reachable time-series state, that a time-sorted topological order exists for every such DAG and that return_all is '
          'exactly the set of time-sorted topological orders (all_time_topo_spec). Tied to the code by step-by-step correspondence on time-series '
-         'histories, by checking every stored edge and (on DAG states) the default / return_all orders against brute force, and by constructor inputs naming lagged nodes.',
+         'histories, by checking every stored edge and (on DAG states) the default / return_all orders against brute force, and by constructor inputs naming lagged nodes. The default time-series order is modelled exactly (networkx lexicographical_topological_sort with key = lag, ties by sorted name) and proved to be a time-sorted topological order, the least one for (lag, name), after any validated history (TopoSortProofs.v).',
     note=TB + 'networkx.lexicographical_topological_sort is checked (valid + time sorted), not recomputed.',
     technique='Coq invariant proof + correspondence', design='§7 C13'),
  'C18': dict(
@@ -157,7 +157,7 @@ CHECKS.update({
          'same ordered dictionary, that to_dict is independent of construction order, the Skeleton round trip, and the class conversions (identifiers, '
          'types, user metadata and every time-respecting edge preserved; non-directed edges flipped exactly when against time; directed ones refused). '
          'Tied to the code by comparing to_dict as an ORDERED tree through real JSON text, from_dict (full observation hash + error class) incl. three '
-         'hostile variants of every dictionary, copy, skeleton and conversions, and by evaluating the property itself on the implementation.',
+         'hostile variants of every dictionary, copy, skeleton and conversions, and by evaluating the property itself on the implementation. The JSON TEXT level is modelled and proved too (JsonText.v: json.dumps / json.loads with escapes, surrogate pairs, any whitespace layout and indent=; parse (print t) = t exactly on well-formed trees), and the round-trip theorems are restated through JSON text.',
     note=TB + 'json.dumps/loads is the identity on the modelled JSON type (validated by going through real JSON text). TS theorems assume TagsStable (key-sorted metadata), which the harness canonicalisation provides.',
     technique='Coq proof of round trip by induction over the sorted node/edge lists; ordered-tree correspondence', design='§7 C05'),
  'C08': dict(
